@@ -730,7 +730,7 @@ def part_detect(ctx, st):
         hf, lf, psd = f["xcor_hf"], f["xcor_lf"], f["psd_hf"]
         clear = np.array([i not in expect for i in range(nc)])
         for i, l in expect.items():
-            if l == 1:
+            if l == 1 and tags.get("where") != "probe_end":      # the probe ends are finding F-C15-b
                 worst["dead_xcor_hf_max"] = max(worst["dead_xcor_hf_max"], float(hf[i]))
             if l == 2:
                 worst["noisy_psd_min"] = min(worst["noisy_psd_min"], float(psd[i]))
